@@ -1304,7 +1304,35 @@ class Interp(object):
                     return val if kind == "expr" else self.iterate(val)[v[1]]
         if inst is not None and inst.tag == "exc" and name in ("message", "args"):
             return inst.attrs.get("args", ())
+        if name == "__init__" and self._is_exception_class(qual):
+            # BaseException.__init__(self, *args): stores the arguments
+            def _exc_init(it, a, k, inst=inst):
+                tgt, rest = (inst, a) if inst is not None else (a[0], a[1:])
+                if isinstance(tgt, AObj):
+                    tgt.attrs["args"] = tuple(rest)
+                return None
+            return Prim(_exc_init, "BaseException.__init__")
         raise AbsRaise("AttributeError", ("%s has no attribute %s" % (qual, name),))
+
+    def exc_pickle_roundtrip(self, obj):
+        """What arrives when an exception instance of a repository class crosses a process boundary: pickle stores
+        (class, self.args) and rebuilds it with class(*self.args).  self.args is what the class's own __init__ handed
+        to BaseException.__init__ (all constructor arguments when there is no __init__).  Raises what the rebuild raises."""
+        if not (isinstance(obj, AObj) and obj.tag == "exc" and obj.cls in self.repo.classes):
+            return obj
+        q, f = self.repo.find_method(obj.cls, "__init__")
+        ctor_args = tuple(obj.attrs.get("args", ()))
+        if f is None:
+            return AObj(obj.cls, {"args": ctor_args}, tag="exc")
+        probe = AObj(obj.cls, {"args": ctor_args}, tag="exc")
+        self.call(self.getattr(probe, "__init__"), list(ctor_args))      # as at construction: fixes self.args
+        stored = tuple(probe.attrs.get("args", ()))
+        rebuilt = AObj(obj.cls, {"args": stored}, tag="exc")
+        self.call(self.getattr(rebuilt, "__init__"), list(stored))        # class(*self.args)
+        for k_, v_ in probe.attrs.items():
+            if k_ != "args":
+                rebuilt.attrs.setdefault(k_, v_)                            # the instance dictionary travels too
+        return rebuilt
 
     def _decorate(self, fn, f, ci, q):
         """Apply, innermost first, the decorators of f that are repository functions named in
